@@ -32,6 +32,9 @@ def run(c):
                 cases.append((params, ("prio", "library")))
                 if obs == "inotify":
                     cases.append((params, ("prio", "driver")))
+                if rec and spell in ("str", "bytes", "rel", "path"):
+                    # the same directory scheduled twice, as str and as bytes: two watches, each with its own path type
+                    cases.append((dict(params, other_type_watch=True), ("prio", "library")))
     recs = pe.run_cases(c, cases, f"vocabulary tour x {len(SPELLS)} root spellings x 2 observers, odd file names")
     pe.validate(c, "C19", recs)
     # names under which the path of a renamed directory re-occurs textually inside a descendant's path when the root is
